@@ -1,16 +1,17 @@
 import XmlRsModel.Dom
 import XmlRsModel.Thm.C13
 import XmlRsModel.Lemmas.DataValid
+import XmlRsModel.Lemmas.DataValidPI
 /-! Property C15: edits that succeed keep the document serializable and faithful.
     The library validates supplied data by re-parsing a fragment with its own grammar productions; the
     model's validity predicates ARE those productions (`Dom.validText` = production `char_data` of the
     grammar generated from the source, and so on), so they change when the source changes.  Proved:
-    what `char_data`, `cdsect` and `comment` accept, in closed form (for comments: exactly production [15] of
+    what `char_data`, `cdsect`, `comment` and `pi` (target and data) accept, in closed form (for comments: exactly production [15] of
     the Recommendation, and that production in words); every data edit stores only data that passed the
     predicate for the node's kind — computed on the OUTCOME of the edit, so a forbidden sequence that
     only arises from combining harmless pieces is refused too; a refused edit changes nothing. -/
 namespace XmlRs.C15
-open XmlRs XmlRs.Dom Gen.Xml
+open XmlRs XmlRs.Dom Gen.Xml XmlRs.Names
 
 theorem spanP_all_iff (p : Char → Bool) : ∀ s : Str, (spanP p s).2 = [] ↔ s.all p = true
   | [] => by simp [spanP]
@@ -188,6 +189,50 @@ example : validCData ['a', ']', ']'] = true ∧ validCData ['a', ']', ']', '>', 
   rw [validCData_iff, validCData_iff]; decide
 example : validComment ['a', '-', 'b'] = true ∧ validComment ['a', '-', '-', 'b'] = false ∧ validComment ['a', '-'] = false := by
   rw [validComment_closed, validComment_closed, validComment_closed]; decide
+
+/-- PI targets the factory accepts, in closed form: a Name that is not `xml` in any letter case -/
+theorem validPITarget_iff (t : Str) : validPITarget t = (isName t && !P.eqIgnoreAsciiCase t xmlS) := by
+  simp only [validPITarget]
+  cases hn : isName t with
+  | false => simp
+  | true =>
+    have ha := isName_all t hn
+    simp only [Bool.true_and]
+    cases hx : P.eqIgnoreAsciiCase t xmlS with
+    | true =>
+      cases hm : fullMatch N.pi ("<?".toList ++ t ++ "?>".toList) with
+      | false => rfl
+      | true => have := target_not_xml t ha hm; simp [this] at hx
+    | false =>
+      have e0 : "<?".toList = [Char.ofNat 60,Char.ofNat 63] := by decide +kernel
+      have e1 : [Char.ofNat 63,Char.ofNat 62] = qg := by decide +kernel
+      have e2 : "?>".toList = qg := by decide +kernel
+      simp only [fullMatch]
+      generalize hF : 100000 + 64 * ("<?".toList ++ t ++ "?>".toList).length = F
+      obtain ⟨f, rfl⟩ : ∃ f, F = f + 11 := ⟨F - 11, by omega⟩
+      obtain ⟨h1, h2⟩ := span_span_split '?' ['>'] nc_q t ha
+      have hin : "<?".toList ++ t ++ "?>".toList = "<?".toList ++ (t ++ '?' :: ['>']) := by simp [e2]
+      rw [hin]
+      have ex : [Char.ofNat 120, Char.ofNat 109, Char.ofNat 108] = xmlS := by decide
+      have hsq : spanP P.isSpace qg = ([], qg) := by decide
+      simp only [run, env_pi, Prod.pi, runSeq, runAlt, e0, e1, e2, List.append_assoc, stripPrefix_append,
+        env_pi_target, Prod.pi_target, env_name, Prod.name, env_multinamestartchar0, Prod.multinamestartchar0,
+        env_multinamechar0, Prod.multinamechar0, CST.flatten, flattenL, List.append_nil, h1, h2, ex, hx]
+      simp only [Bool.not_false, if_true]
+      rw [hsq]
+      simp [stripPrefix]
+
+/-- PI data the library accepts for a target it accepts, in closed form: only Chars, no "?>" -/
+theorem validPI_iff (t d : Str) (ht : validPITarget t = true) :
+    validPI t d = (d.all P.isChar && !hasSub ['?', '>'] d) := by
+  simp only [validPITarget, Bool.and_eq_true] at ht
+  have ha := isName_all t ht.1
+  exact pi_data_run t d ha (target_not_xml t ha ht.2)
+
+example : validPITarget ['t'] = true ∧ validPITarget ['X', 'm', 'L'] = false ∧ validPITarget ['1'] = false := by
+  rw [validPITarget_iff, validPITarget_iff, validPITarget_iff]; decide
+example : validPI ['t'] [' ', 'a', '?'] = true ∧ validPI ['t'] ['a', '?', '>', 'b'] = false := by
+  rw [validPI_iff _ _ (by rw [validPITarget_iff]; decide), validPI_iff _ _ (by rw [validPITarget_iff]; decide)]; decide
 
 /-- a data edit that succeeds stores data that passed the validity predicate of the node's kind,
     evaluated on the OUTCOME of the edit (insert / delete / replace / set / append alike) -/
